@@ -59,6 +59,11 @@ def expand_minimal_spaces(
 
         node["expanded"] = True
         node["skipped"] = True
+        # Attractor data computed while the node had no successors
+        # is no longer valid.
+        node["attractor_seeds"] = None
+        node["attractor_candidates"] = None
+        node["attractor_sets"] = None
 
         if sd.config["debug"]:
             print(f"[{node_id}] Node skipped with {skip_edges} edges.")
